@@ -64,10 +64,10 @@ def build_setup(ctx):
     return {'dir': d}
 
 
-def plan(rng, nhist, small_hi):
+def plan(rng, nhist, small_hi, top=PMAX):
     """[seed, peak, budget] per history of one process: many small ones and a
     ladder of big ones, ordered by noisy peak."""
-    ladder = [1200, 2600, 5200, 10000, PMAX]
+    ladder = [p for p in (1200, 2600, 5200, 10000, PMAX) if p <= top]
     hs = []
     for _ in range(max(1, nhist - len(ladder))):
         peak = int(math.exp(rng.uniform(math.log(20), math.log(small_hi))))
@@ -81,9 +81,11 @@ def plan(rng, nhist, small_hi):
 
 def generate(ctx):
     rng = ctx.rng('gen')
-    nchild, nhist, small_hi = (10, 500, 300) if ctx.thorough else (1, 100, 700)
+    nchild, nhist, small_hi = (10, 500, 200) if ctx.thorough else (1, 100, 700)
     nhist = ctx.scale(nhist, nhist)
-    return build_setup(ctx), [{'hist': plan(rng, nhist, small_hi)} for _ in range(nchild)]
+    # every second process of the thorough tier stops the ladder at 5200 alive
+    return build_setup(ctx), [{'hist': plan(rng, nhist, small_hi, 5200 if i % 2 else PMAX)}
+                              for i in range(nchild)]
 
 
 def replay_setup(ctx, case):
@@ -103,11 +105,10 @@ def child_setup(setup, wd):
           'T': {n: mffi.typeof(fptr(r, p)) for n, r, p in SIGDEF},
           'call': {n: getattr(lib, 'call_' + n) for n, r, p in SIGDEF},
           'out': mffi.new('int[2]'), 'log': [], 'next_id': 0, 'seen': set()}
-    mffi_bf = FFI()
-    mffi_bf.cdef('struct bf { int a:3; int b; };')
+    bffi = st['bf_ffi'] = FFI()
+    bffi.cdef('struct bf { int a:3; int b; };')
     st['fail_types'] = {'variadic': mffi.typeof('int(*)(int, ...)'),
-                        'bitfield-struct': mffi_bf.typeof('int(*)(struct bf)')}
-    st['bf_ffi'] = mffi_bf
+                        'bitfield-struct': bffi.typeof('int(*)(struct bf)')}
     return st
 
 
@@ -453,7 +454,6 @@ def child_case(st, case):
             rep.bad('harness-exception', traceback.format_exc()[-900:], idx)
         if rep.nbad:
             break
-    rep.stat('max_alive_at_once', 0)
     rep.stats['max_alive_at_once'] = st.get('max_alive', 0)
     rep.stats['closure_addresses_seen'] = len(st['seen'])
     return rep.result()
